@@ -50,7 +50,7 @@ CONF = {
                 model=[("override", 500, 5000), ("overridesync", 350, 3500), ("overridefaults", 350, 3500), ("ctx", 150, 1500)],
                 big=[("overridesync", 300, 3000), ("overridefaults", 300, 3000)]),
     "C08": dict(prefixes=("C08.",), builds=("pure",),
-                model=[("session", 400, 4000), ("syncfaults", 200, 2500), ("overflow", 300, 3000), ("sync", 150, 1500), ("throw", 250, 2500)],
+                model=[("session", 400, 4000), ("syncfaults", 200, 2500), ("overflow", 300, 3000), ("overflowbatch", 400, 4000), ("sync", 150, 1500), ("throw", 250, 2500)],
                 monitor_only=[("sessionfaulty", 400, 4000), ("faultyctx", 250, 2500), ("faultysync", 250, 2500)],
                 big=[("session", 300, 3000)], fresh=True),
     "C12": dict(prefixes=("C12.",), builds=("pure",),
@@ -210,6 +210,10 @@ def main():
                 desc = "all tree programs with <=2 tasks x <=2 yields, <=3 tasks (children 1 yield), <=4 tasks x 1 yield; <=2 leaves/yield, 2 kinds, 3 priority assignments"
             fam += [("enum", p) for p in en]
             cov["enumerated_family"] = "%s: %d programs, every one model-checked under all schedules and replayed" % (desc, len(en))
+        if pid == "C08":
+            en = plang.enum_overflow()
+            fam += [("enum_overflow", p) for p in en]
+            cov["enumerated_family"] = "runaway recursion with 1-3 readers blocked on a pending batch, then a second computation: %d programs, all schedules" % len(en)
         if pid == "C12":
             en = plang.enum_dedup(3, (1, 2), 2) if tier == "quick" else plang.enum_dedup(3, (1, 2, 3), 2) + plang.enum_dedup(2, (1, 2), 3)
             fam += [("enum_dedup", p) for p in en]
